@@ -4,6 +4,7 @@ import (
 	"fmt"
 	"math/rand"
 	"sort"
+	"strings"
 )
 
 type Gen struct {
@@ -140,7 +141,7 @@ func (g *Gen) Device(t *Config, nedits int) (*Store, []string) {
 		return p, g.Rng.Intn(len(p.Rules))
 	}
 	for k := 0; k < nedits; k++ {
-		switch g.Rng.Intn(14) {
+		switch g.Rng.Intn(15) {
 		case 0: // rename a group on device
 			if len(s.Groups) > 0 {
 				gr := s.Groups[g.Rng.Intn(len(s.Groups))]
@@ -229,6 +230,32 @@ func (g *Gen) Device(t *Config, nedits int) (*Store, []string) {
 				}
 				ops = append(ops, "rule-ids-shifted")
 			}
+		case 14: // one address / port differs from the target's in one character
+			if len(s.Groups) > 0 && g.Rng.Intn(3) != 0 {
+				gr := s.Groups[g.Rng.Intn(len(s.Groups))]
+				ex := gr.Expression[0]
+				if len(ex.IPAddresses) > 0 {
+					i := g.Rng.Intn(len(ex.IPAddresses))
+					n := nearAddr(g.Rng, ex.IPAddresses[i])
+					dup := false
+					for _, a := range ex.IPAddresses {
+						dup = dup || a == n
+					}
+					if !dup {
+						ex.IPAddresses = append([]string{}, ex.IPAddresses...)
+						ex.IPAddresses[i] = n
+						sort.Strings(ex.IPAddresses)
+						ops = append(ops, "group-near-address")
+					}
+				}
+			} else if len(s.Services) > 0 {
+				sv := s.Services[g.Rng.Intn(len(s.Services))]
+				var port int
+				if _, err := fmt.Sscanf(sv.ServiceEntries[0].DestinationPorts[0], "%d", &port); err == nil {
+					sv.ServiceEntries[0].DestinationPorts = []string{fmt.Sprint(nearInt(g.Rng, port, 65535))}
+					ops = append(ops, "service-near-port")
+				}
+			}
 		case 9: // service changed in place
 			if len(s.Services) > 0 {
 				sv := s.Services[g.Rng.Intn(len(s.Services))]
@@ -280,4 +307,35 @@ func (g *Gen) Device(t *Config, nedits int) (*Store, []string) {
 		SourceGroups: []string{"ANY"}, DestinationGroups: []string{GroupPath + "other-team-group"}, Services: []string{ServicePath + "HTTP"},
 		Scope: []string{"ANY"}, Direction: "IN_OUT"}}})
 	return s, ops
+}
+
+// nearAddr changes the last number of an address (or its prefix length)
+// to a value one digit longer, shorter or with another final digit.
+func nearAddr(rng *rand.Rand, a string) string {
+	if i := strings.Index(a, "/"); i >= 0 {
+		return a[:i] + []string{"/25", "/26", "/28"}[rng.Intn(3)]
+	}
+	i := strings.LastIndex(a, ".")
+	var n int
+	fmt.Sscanf(a[i+1:], "%d", &n)
+	return fmt.Sprintf("%s.%d", a[:i], nearInt(rng, n, 254))
+}
+
+func nearInt(rng *rand.Rand, n, max int) int {
+	var c []int
+	for d := 0; d < 10; d++ {
+		if x := n/10*10 + d; x != n && x >= 1 && x <= max {
+			c = append(c, x)
+		}
+		if x := n*10 + d; x >= 1 && x <= max {
+			c = append(c, x)
+		}
+	}
+	if n >= 10 {
+		c = append(c, n/10)
+	}
+	if len(c) == 0 {
+		return n
+	}
+	return c[rng.Intn(len(c))]
 }
